@@ -284,7 +284,7 @@ static void DecodeImm(Word Index) {
                     EvalResult.OK = True;
                     if (ArgCnt == 2) {
                         AdrWord = EvalStrIntExpressionWithResult(
-                                &ArgStr[2], Int4, &EvalResult);
+                                &ArgStr[2], UInt4, &EvalResult);
                         if (EvalResult.OK && mFirstPassUnknown(EvalResult.Flags)) {
                             AdrWord = 0;
                         }
